@@ -55,6 +55,8 @@ pub struct Ctx {
     pub notes: Vec<String>,
     pub max_samples: usize,
     pub replay_mode: bool,
+    /// "release" or "debug" (overflow-checked build lane)
+    pub debug_lane: bool,
 }
 
 impl Ctx {
@@ -72,6 +74,7 @@ impl Ctx {
             notes: vec![],
             max_samples: 3,
             replay_mode: false,
+            debug_lane: cfg!(debug_assertions),
         }
     }
     pub fn count(&mut self, k: &str) {
@@ -154,6 +157,9 @@ pub struct Spec {
     pub hang_secs: u64,
 }
 
+/// Properties whose verdict also rests on an overflow-checked debug build of the same cases.
+pub const DEBUG_LANE_PROPS: [&str; 2] = ["C09", "C11"];
+
 static INFLIGHT: AtomicU64 = AtomicU64::new(u64::MAX);
 static INFLIGHT_SINCE_MS: AtomicU64 = AtomicU64::new(0);
 
@@ -171,8 +177,23 @@ pub struct WorkerArgs {
     pub hang_mult: u64,
 }
 
+/// Address-space cap for worker processes: a runaway allocation (e.g. an unbounded loop that
+/// queues storage instructions) must kill the worker, not the machine. The allocation failure
+/// aborts the process; the parent then confirms the case in flight by a solo re-run.
+fn limit_memory(bytes: u64) {
+    let lim = libc::rlimit {
+        rlim_cur: bytes,
+        rlim_max: bytes,
+    };
+    unsafe {
+        libc::setrlimit(libc::RLIMIT_AS, &lim);
+    }
+}
+
 pub fn run_worker(spec: &Spec, a: &WorkerArgs) -> i32 {
     exec::install_panic_hook();
+    let mem_gb: u64 = std::env::var("VERIF_WORKER_MEM_GB").ok().and_then(|s| s.parse().ok()).unwrap_or(6);
+    limit_memory(mem_gb << 30);
     let t0 = Instant::now();
     let status_path = a.out.with_extension("status");
     let hang_secs = spec.hang_secs * a.hang_mult;
@@ -335,9 +356,31 @@ pub fn run_check(spec: &Spec, tier: Tier, extra_lanes: &[LaneResult]) -> i32 {
             .stderr(Stdio::inherit())
             .spawn()
             .expect("spawn worker");
-        children.push((i, out, child));
+        children.push((i, out, child, exe.clone()));
+    }
+    // overflow-checked debug-build lane (same deterministic cases, thinned), if the binary exists
+    let mut n_debug = 0u64;
+    if DEBUG_LANE_PROPS.contains(&spec.id) {
+        if let Ok(dbg) = std::env::var("HCVERIF_DEBUG_BIN") {
+            if Path::new(&dbg).exists() {
+                n_debug = (n / 2).max(1);
+                for i in 0..n_debug {
+                    let out = scratch.join(format!("dbgshard{i}"));
+                    let child = Command::new(&dbg)
+                        .args(["worker", spec.id, "--tier", tier.name(), "--seed", &seed.to_string(), "--shard", &i.to_string(), "--nshards", &n_debug.to_string(), "--out", out.to_str().unwrap()])
+                        .stdout(Stdio::null())
+                        .stderr(Stdio::inherit())
+                        .spawn()
+                        .expect("spawn debug worker");
+                    children.push((1000 + i, out, child, std::path::PathBuf::from(&dbg)));
+                }
+            }
+        }
     }
     let mut inconclusive: Vec<String> = vec![];
+    if DEBUG_LANE_PROPS.contains(&spec.id) && n_debug == 0 {
+        inconclusive.push("overflow-checked debug-build lane did not run (HCVERIF_DEBUG_BIN missing)".into());
+    }
     let mut merged_counters: BTreeMap<String, u64> = BTreeMap::new();
     let mut samples: Vec<Value> = vec![];
     let mut violations: Vec<Value> = vec![];
@@ -348,7 +391,7 @@ pub fn run_check(spec: &Spec, tier: Tier, extra_lanes: &[LaneResult]) -> i32 {
     let global_limit = Duration::from_secs(
         ((spec.random_secs)(tier) + 60) * 20 + spec.hang_secs * 12 + 1800,
     );
-    for (i, out, mut child) in children {
+    for (i, out, mut child, child_exe) in children {
         let status = loop {
             match child.try_wait() {
                 Ok(Some(s)) => break Some(s),
@@ -373,7 +416,7 @@ pub fn run_check(spec: &Spec, tier: Tier, extra_lanes: &[LaneResult]) -> i32 {
                 (_, Some(case)) => {
                     let what = if code == Some(3) { "hang" } else { "abort" };
                     let out2 = scratch.join(format!("confirm{i}"));
-                    let r = Command::new(&exe)
+                    let r = Command::new(&child_exe)
                         .args([
                             "worker",
                             spec.id,
@@ -390,7 +433,7 @@ pub fn run_check(spec: &Spec, tier: Tier, extra_lanes: &[LaneResult]) -> i32 {
                             "--only-case",
                             &case.to_string(),
                             "--hang-mult",
-                            "10",
+                            "5",
                         ])
                         .stdout(Stdio::null())
                         .status();
@@ -425,10 +468,15 @@ pub fn run_check(spec: &Spec, tier: Tier, extra_lanes: &[LaneResult]) -> i32 {
         match std::fs::read(out.with_extension("json")) {
             Ok(s) => {
                 let v: Value = serde_json::from_slice(&s).unwrap_or(Value::Null);
+                let is_dbg = i >= 1000;
                 evaluations += v["evaluations"].as_u64().unwrap_or(0);
+                if is_dbg {
+                    *merged_counters.entry("debug_build_lane_evaluations".into()).or_insert(0) += v["evaluations"].as_u64().unwrap_or(0);
+                }
                 if let Some(m) = v["counters"].as_object() {
                     for (k, x) in m {
                         let x = x.as_u64().unwrap_or(0);
+                        let k = if is_dbg { if k.starts_with("max:") { format!("max:debug:{}", &k[4..]) } else { format!("debug:{k}") } } else { k.clone() };
                         let e = merged_counters.entry(k.clone()).or_insert(0);
                         if k.starts_with("max:") {
                             *e = (*e).max(x);
@@ -445,7 +493,17 @@ pub fn run_check(spec: &Spec, tier: Tier, extra_lanes: &[LaneResult]) -> i32 {
                     }
                 }
                 if let Some(a) = v["violations"].as_array() {
-                    violations.extend(a.iter().cloned());
+                    for x in a {
+                        let mut x = x.clone();
+                        if is_dbg {
+                            // same class as in the release build if it also fails there; otherwise marked
+                            let sig = x["sig"].as_str().unwrap_or("").to_string();
+                            x["detail"] = json!(format!("[overflow-checked debug build] {}", x["detail"].as_str().unwrap_or("")));
+                            x["sig"] = json!(sig);
+                            x["replay"]["build"] = json!("debug");
+                        }
+                        violations.push(x);
+                    }
                 }
                 if let Some(a) = v["notes"].as_array() {
                     for s in a {
